@@ -464,9 +464,8 @@ func finish(c *Ctx, spec *propSpec, known []KnownFinding, evDir string, t0 time.
 	}
 	if len(viol) > 0 {
 		os.MkdirAll(vdir, 0o755)
-		if exit == 0 {
-			exit = 1
-		}
+		// a violation that was found stands, whatever another rule could not decide
+		exit = 1
 		for _, o := range viol {
 			rp := filepath.Join(vdir, sanitizeKey(o.Rule+"-"+o.Construct)+".json")
 			b, _ := json.MarshalIndent(map[string]interface{}{
